@@ -241,8 +241,13 @@ def gen_c12(rng, tier, index):
         sc['route'] = rng.choice(['from_file', 'from_file', 'from_file',
                                   'listlua', 'luamin', 'stats', 'listtokens',
                                   'printast', 'luafind', 'writep8', 'luafmt',
-                                  'build-lua-cart', 'build-gfx-cart'])
+                                  'build-lua-cart', 'build-gfx-cart',
+                                  'build-require-p8'])
         sc['tab'] = rng.choice([None, None, None, 0, 1])
+        if sc['warmup'] is False and rng.random() < 0.15:
+            # the very file the string aims at was read before, legitimately,
+            # by a cart that lives next to it
+            sc['warmup'] = 'owner-first'
     else:
         sc['route'] = 'build'
         sc['nest'] = rng.random() < 0.25
@@ -476,6 +481,7 @@ def execute(sc):
         w.mkdir('out')
         operands.add(norm(out_abs))
         operands.add(norm(w.p(base + '/cart_fmt.p8')))
+        operands.add(norm(w.p(base + '/main_req.lua')))
         if sc.get('warmup'):
             cousin = os.path.dirname(info['root']) + '/cousin'
             try:
@@ -498,6 +504,26 @@ def execute(sc):
                     else:
                         os.environ['HOME'] = saved_home
                     core.bump(res['probes'], 'warmup-under-another-home')
+                elif sc['mode'] == 'include' and \
+                        sc.get('warmup') == 'owner-first':
+                    tgt = norm(os.path.join(os.path.dirname(main_abs),
+                                            S_real))
+                    if os.path.isfile(tgt) and not any(
+                            c.isspace() for c in os.path.basename(tgt)):
+                        owner = os.path.join(os.path.dirname(tgt),
+                                             'owner_warm.p8')
+                        inc = '#include ' + os.path.basename(tgt)
+                        if sc.get('tab') is not None:
+                            inc += ':%d' % sc['tab']
+                        with open(owner, 'wb') as fh:
+                            fh.write(_p8_with_code(
+                                ('owner_marker=1\n%s\n' % inc).encode()))
+                        try:
+                            pfile.from_file(owner)
+                            core.bump(res['probes'],
+                                      'warmup-target-read-by-its-owner')
+                        except BaseException:
+                            pass
                 elif sc['mode'] == 'include' and sc.get('warmup') == 'failing':
                     # a cart one level up fails to load half-way through
                     par = os.path.dirname(info['base'])
@@ -551,6 +577,20 @@ def execute(sc):
                                         else []) + [arg]
                 rc = tool.main(argv)
                 result_code = w.out.getvalue().encode('latin-1', 'replace')
+            elif sc['route'] == 'build-require-p8':
+                # the cart is a library that a program requires (load path
+                # with a cart extension, or the name spelled in full)
+                full = sc['aim_index'] % 2 == 0
+                w.put(base + '/main_req.lua', (
+                    'main_marker=1\nrequire("%s")\n' % (
+                        'cart.p8' if full else 'cart')).encode())
+                rc = tool.main(['build', out_abs, '--lua',
+                                os.path.join(os.path.dirname(arg),
+                                             'main_req.lua')] + (
+                    [] if full else ['--lua-path', '?;?.lua;?.p8']))
+                if os.path.exists(out_abs):
+                    with open(out_abs, 'rb') as fh:
+                        result_code = fh.read()
             elif sc['route'] in ('build-lua-cart', 'build-gfx-cart'):
                 rc = tool.main(['build', out_abs, '--lua' if sc['route'] ==
                                 'build-lua-cart' else '--gfx', arg])
